@@ -69,6 +69,18 @@ func heapReads(ts []*Term) []*Term {
 		seen[t] = true
 		if t.Op == "select" && !t.hasBV && !t.Sort.IsArr() && rooted(t.Args[0]) {
 			out = append(out, t)
+		} else if t.Op == "select" && !t.hasBV && !t.Sort.IsArr() && t.Args[0].Op == "store" {
+			// a read through writes made by this execution: also report the pre-state content
+			r := t.Args[0]
+			for r.Op == "store" {
+				r = r.Args[0]
+			}
+			if rooted(r) {
+				if p := Select(r, t.Args[1]); !seen[p] {
+					seen[p] = true
+					out = append(out, p)
+				}
+			}
 		}
 		for _, a := range t.Args {
 			rec(a)
@@ -258,7 +270,9 @@ func main() {
 	mu.Lock()
 	for i, o := range all {
 		asserts := append([]*Term{}, o.PC...)
-		asserts = append(asserts, Not(o.Goal))
+		neg, sks := skolemNeg(o.Goal)
+		asserts = append(asserts, neg)
+		asserts = append(asserts, instantiate(o.PC, sks)...)
 		var gv []*Term
 		if o.Kind != "cover" {
 			gv = append(append([]*Term{}, o.Inputs...), heapReads(asserts)...)
@@ -385,6 +399,49 @@ func main() {
 	}
 	fmt.Printf("govc: %d functions, %d clause-level obligations (%d VCs), %d not discharged; load %.1fs exec %.1fs solve %.1fs\n",
 		len(res.Functions), len(res.Obligations), res.VCs, bad, res.LoadSecs, res.ExecSecs, res.SolveSecs)
+}
+
+// skolemNeg returns the negation of goal with leading universal quantifiers replaced by fresh
+// constants (which are returned).
+func skolemNeg(goal *Term) (*Term, []*Term) {
+	var sks []*Term
+	for goal.Op == "forall" {
+		m := map[*Term]*Term{}
+		for _, b := range goal.Bound {
+			sk := Fresh("sk$"+strings.SplitN(b.Name, "?", 2)[0], b.Sort)
+			m[b] = sk
+			sks = append(sks, sk)
+		}
+		goal = Subst(goal.Args[0], m)
+	}
+	return Not(goal), sks
+}
+
+// instantiate adds, for every universally quantified hypothesis over one integer variable,
+// its instances at the skolem constants of the goal (sound: instances are implied; it spares
+// the solvers the e-matching step on which the larger VCs were unstable).
+func instantiate(pc []*Term, sks []*Term) []*Term {
+	if len(sks) == 0 || len(sks) > 4 {
+		return nil
+	}
+	var out []*Term
+	seen := map[*Term]bool{}
+	for _, h := range pc {
+		if h.Op != "forall" || len(h.Bound) != 1 || h.Bound[0].Sort != SInt {
+			continue
+		}
+		for _, sk := range sks {
+			if sk.Sort != SInt {
+				continue
+			}
+			inst := Subst(h.Args[0], map[*Term]*Term{h.Bound[0]: sk})
+			if !seen[inst] && !inst.IsTrue() && len(out) < 64 {
+				seen[inst] = true
+				out = append(out, inst)
+			}
+		}
+	}
+	return out
 }
 
 type trivRec struct {
